@@ -209,7 +209,9 @@ func makeArena(spec string) capnp.Arena {
 
 var arenaSpecs = []string{"single", "single:8", "single:64", "single:4096", "multi", "multi:8", "multi:16", "multi:64",
 	"tight:0", "tight:0:24", "tight:8", "tight:8:16", "tight:16", "tight:64",
-	"dsingle:64", "dsingle:4096", "dmulti:16", "dmulti:256", "dtight:0", "dtight:8:16", "dtight:64"}
+	"dsingle:64", "dsingle:4096", "dmulti:16", "dmulti:256", "dtight:0", "dtight:8:16", "dtight:64",
+	// capacities that are not whole words: the last 1-7 bytes can never be used
+	"single:44", "single:61", "single:9", "multi:42", "multi:13", "dsingle:50", "dmulti:27"}
 
 // ---- building through the public API
 
@@ -628,6 +630,18 @@ func checkSerialisations(msg *capnp.Message, want string, r *lib.Rng) string {
 	if got := liveTree(m3); got != want {
 		return "mismatch packed " + got
 	}
+	// the same packed bytes as a stream of their own, all available at once: the message's last word is the stream's last
+	pd := capnp.NewPackedDecoder(bytes.NewReader(pb))
+	m3b, err := pd.Decode()
+	if err != nil {
+		return "mismatch packed-stream-error"
+	}
+	if got := liveTree(m3b); got != want {
+		return "mismatch packed-stream " + got
+	}
+	if _, err := pd.Decode(); err != io.EOF {
+		return "mismatch packed-stream-not-eof"
+	}
 	for _, packed := range []bool{false, true} {
 		var buf bytes.Buffer
 		var enc *capnp.Encoder
@@ -656,7 +670,10 @@ func checkSerialisations(msg *capnp.Message, want string, r *lib.Rng) string {
 		if err := enc.Encode(tiny); err != nil { // … and a shorter one after it
 			return "mismatch encode-error"
 		}
-		rd := &chunkReader{data: buf.Bytes(), chunks: genChunks(r)}
+		var rd io.Reader = &chunkReader{data: buf.Bytes(), chunks: genChunks(r)}
+		if r.Intn(3) == 0 {
+			rd = bytes.NewReader(buf.Bytes()) // everything available at once (the buffered fast paths of the packed reader)
+		}
 		var dec *capnp.Decoder
 		if packed {
 			dec = capnp.NewPackedDecoder(rd)
@@ -792,6 +809,56 @@ func countCaps(v *Val) int {
 	return n
 }
 
+// capsAgree walks a pointer and its copy in step; every capability pointer of the copy must denote what the source's
+// denotes: no client where the source's table entry is null or missing, the same client otherwise.
+func capsAgree(p, q capnp.Ptr, depth int) string {
+	if depth > 40 {
+		return ""
+	}
+	switch {
+	case p.Interface().IsValid() || q.Interface().IsValid():
+		if !p.Interface().IsValid() || !q.Interface().IsValid() {
+			return "kind"
+		}
+		a, b := p.Interface().Client(), q.Interface().Client()
+		if (a == nil) != (b == nil) {
+			return "null-capability became " + clientID(q.Interface().Message(), uint32(q.Interface().Capability()))
+		}
+		if a != nil && !a.IsSame(b) {
+			return "different client"
+		}
+	case p.Struct().IsValid():
+		if !q.Struct().IsValid() {
+			return "kind"
+		}
+		return structCapsAgree(p.Struct(), q.Struct(), depth)
+	case p.List().IsValid():
+		if !q.List().IsValid() || p.List().Len() != q.List().Len() {
+			return "kind"
+		}
+		for i := 0; i < p.List().Len() && i < 64; i++ {
+			if s := structCapsAgree(p.List().Struct(i), q.List().Struct(i), depth); s != "" {
+				return s
+			}
+		}
+	}
+	return ""
+}
+
+func structCapsAgree(a, b capnp.Struct, depth int) string {
+	for i := 0; i < int(a.Size().PointerCount) && i < int(b.Size().PointerCount); i++ {
+		x, err1 := a.Ptr(uint16(i))
+		y, err2 := b.Ptr(uint16(i))
+		if err1 != nil || err2 != nil {
+			continue
+		}
+		if s := capsAgree(x, y, depth+1); s != "" {
+			return s
+		}
+	}
+	return ""
+}
+
 // execCopy: "build copy <arena> <mode> <seed> <val> <dstarena> <how> <ds> <pc>"
 func execCopy(t []string, mode int, seed uint64, v *Val) string {
 	if len(t) < 9 {
@@ -806,7 +873,19 @@ func execCopy(t []string, mode int, seed uint64, v *Val) string {
 	if err != nil {
 		return "builderr"
 	}
-	addSharedCaps(src)
+	if how == 8 {
+		// a source table with null entries and indices beyond it; the destination already holds eight live clients
+		ntab := []int{0, 3, 6, 8}[ds%4]
+		for i := 0; i < ntab; i++ {
+			if (seed>>uint(i))&1 == 1 {
+				src.AddCap(nil)
+			} else {
+				src.AddCap(sharedClients()[i].AddRef())
+			}
+		}
+	} else {
+		addSharedCaps(src)
+	}
 	srcRoot, err := src.Root()
 	if err != nil {
 		return "mismatch src-root"
@@ -815,6 +894,51 @@ func execCopy(t []string, mode int, seed uint64, v *Val) string {
 	dst, dseg, err := capnp.NewMessage(makeArena(t[5]))
 	if err != nil {
 		return "builderr"
+	}
+	if how == 8 {
+		addSharedCaps(dst)
+		before := len(dst.CapTable)
+		var dp capnp.Ptr
+		switch pc % 3 {
+		case 0:
+			if err := dst.SetRoot(srcRoot); err != nil {
+				return "copyerr"
+			}
+			dp, _ = dst.Root()
+		case 1:
+			st, err := capnp.NewRootStruct(dseg, capnp.ObjectSize{PointerCount: 2})
+			if err != nil {
+				return "builderr"
+			}
+			if err := st.SetPtr(1, srcRoot); err != nil {
+				return "copyerr"
+			}
+			dp, _ = st.Ptr(1)
+		default:
+			if v.Kind != vStruct {
+				return "ok"
+			}
+			st, err := capnp.NewRootStruct(dseg, srcRoot.Struct().Size())
+			if err != nil {
+				return "builderr"
+			}
+			if err := st.CopyFrom(srcRoot.Struct()); err != nil {
+				return "copyerr"
+			}
+			dp = st.ToPtr()
+		}
+		if n := countCaps(v); len(dst.CapTable)-before != n {
+			return "mismatch captable " + strconv.Itoa(len(dst.CapTable)-before) + " want " + strconv.Itoa(n)
+		}
+		if s := capsAgree(srcRoot, dp, 0); s != "" {
+			return "mismatch caps " + s
+		}
+		// entries the destination receives later do not show through either
+		dst.AddCap(sharedClients()[0].AddRef())
+		if s := capsAgree(srcRoot, dp, 0); s != "" {
+			return "mismatch caps-later " + s
+		}
+		return "ok"
 	}
 	var want string
 	var sb strings.Builder
@@ -924,6 +1048,61 @@ func execCopy(t []string, mode int, seed uint64, v *Val) string {
 			return "mismatch elem-copy " + got
 		}
 		return "ok"
+	case 7: // a struct copied INTO an element of a primitive list (sub-word data section): truncated to the element, neighbours and the object behind the list untouched
+		if v.Kind != vStruct {
+			return "ok"
+		}
+		ek := 2 + ds%3
+		w := elemBytes[ek]
+		const n = 5
+		st, err := capnp.NewRootStruct(dseg, capnp.ObjectSize{PointerCount: 2})
+		if err != nil {
+			return "builderr"
+		}
+		var l capnp.List
+		switch ek {
+		case 2:
+			tl, e := capnp.NewUInt8List(dseg, n)
+			l, err = tl.List, e
+		case 3:
+			tl, e := capnp.NewUInt16List(dseg, n)
+			l, err = tl.List, e
+		default:
+			tl, e := capnp.NewUInt32List(dseg, n)
+			l, err = tl.List, e
+		}
+		if err != nil {
+			return "builderr"
+		}
+		for i := 0; i < n; i++ {
+			for k := 0; k < w; k++ {
+				l.Struct(i).SetUint8(capnp.DataOffset(k), 0xbb)
+			}
+		}
+		behind, _ := capnp.NewData(dseg, []byte{0xcc, 0xcc, 0xcc, 0xcc, 0xcc, 0xcc, 0xcc, 0xcc})
+		st.SetPtr(0, l.ToPtr())
+		st.SetPtr(1, behind.ToPtr())
+		idx := int(seed) % n
+		if pc%2 == 0 {
+			err = l.SetStruct(idx, srcRoot.Struct())
+		} else {
+			err = l.Struct(idx).CopyFrom(srcRoot.Struct())
+		}
+		if err != nil {
+			return "copyerr"
+		}
+		prim := make([]byte, n*w)
+		for k := range prim {
+			prim[k] = 0xbb
+		}
+		el := make([]byte, w)
+		copy(el, v.Data)
+		copy(prim[idx*w:], el)
+		want = render(&Val{Kind: vStruct, Ptrs: []*Val{{Kind: vList, EK: ek, N: n, Prim: prim}, {Kind: vList, EK: 2, N: 8, Prim: []byte{0xcc, 0xcc, 0xcc, 0xcc, 0xcc, 0xcc, 0xcc, 0xcc}}}})
+		if got := liveTree(dst); got != want {
+			return "mismatch into-elem " + got
+		}
+		return "ok"
 	case 5: // same message: CopyFrom inside the source message, then independence
 		if v.Kind != vStruct {
 			return "ok"
@@ -982,6 +1161,19 @@ func genBuild(rec *lib.Rec, r *lib.Rng, thorough bool, which string) {
 			}
 		}
 	}
+	if Shard == 0 && which == "C04" {
+		// a message whose last object is a text of 0..16 characters (the last packed word then has every tag shape)
+		for l := 0; l <= 16; l++ {
+			tx := make([]byte, l+1)
+			for k := 0; k < l; k++ {
+				tx[k] = byte('a' + k)
+			}
+			v := &Val{Kind: vStruct, Data: []byte{1, 0, 0, 0, 0, 0, 0, 0}, Ptrs: []*Val{{Kind: vList, EK: 2, N: l + 1, Prim: tx}}}
+			for s := 0; s < 4; s++ {
+				rec.Op("S", "build make single 0 "+strconv.Itoa(s)+" "+valStr(v), true)
+			}
+		}
+	}
 	n := 1500
 	if thorough {
 		n = 100000
@@ -1026,7 +1218,18 @@ func genBuild(rec *lib.Rec, r *lib.Rng, thorough bool, which string) {
 			rec.Count("arena " + strings.Split(arena, ":")[0])
 		case "C16":
 			dst := arenaSpecs[r.Intn(len(arenaSpecs))]
-			how := r.Intn(7)
+			how := r.Intn(9)
+			if how == 8 && countCaps(v) == 0 { // capabilities whose source entry is null or missing: make sure there are some
+				for _, nd := range all {
+					if nd.Kind == vNull && r.Chance(1, 2) {
+						nd.Kind, nd.Cap = vCap, uint32(r.Intn(8))
+					}
+				}
+				if v.Kind == vStruct && countCaps(v) == 0 {
+					v.Ptrs = append(v.Ptrs, &Val{Kind: vCap, Cap: uint32(r.Intn(8))})
+				}
+				vs = valStr(v)
+			}
 			if how == 6 { // needs a primitive list as the source root
 				b2 := 1
 				v = genList(r, 1, &b2)
